@@ -156,3 +156,47 @@ def exec_chart(scn):
         return out
     except Exception as e:
         return [{"id": scn["id"] + "/build", "op": "write", "cls": f"qua.write.{how}", "exc": "build:" + exc_name(e), "doc": {}, "chart": {}}]
+
+
+def bundled_scenarios(tier):
+    """the repository's bundled .qua maps cut into documents of <= 60/120 hit objects (<= 60 SVs, all timing points)"""
+    import glob
+    import os
+    import yaml
+    from harness.common import REPO
+    out = []
+    size, per = (60, 2) if tier == "quick" else (120, 12)
+    for f in sorted(glob.glob(os.path.join(REPO, "rsc", "maps", "qua", "*.qua"))):
+        with open(f, encoding="utf8") as fh:
+            tree = yaml.safe_load(fh.read())
+        objs = tree.get("HitObjects") or []
+        chunks = [objs[i:i + size] for i in range(0, len(objs), size)]
+        step = max(1, len(chunks) // per)
+        for k, ch in list(enumerate(chunks))[len(chunks) // 4::step][:per]:
+            t = dict(tree)
+            t["HitObjects"] = ch
+            svs = t.get("SliderVelocities") or []
+            if len(svs) > 60:
+                t["SliderVelocities"] = [svs[int(j * len(svs) / 60)] for j in range(60)]
+            out.append({"id": f"b.{os.path.basename(f)}.{k}", "text": yaml.safe_dump(t, default_flow_style=False, sort_keys=False,
+                                                                                   allow_unicode=True)})
+    return out
+
+
+def exec_bundled(scn):
+    from reamber.quaver.QuaMap import QuaMap
+    text = scn["text"]
+    out = []
+    rec = {"id": scn["id"] + "/read", "op": "read", "cls": "qua.read.bundled", "exc": "", "doc": tokens(text), "chart": {}}
+    m = None
+    try:
+        m = QuaMap.read(text)
+        rec["chart"] = proj_chart(m)
+    except ProjectionError as e:
+        rec["exc"] = "Projection:" + str(e)
+    except Exception as e:
+        rec["exc"] = exc_name(e)
+    out.append(rec)
+    if m is not None and not rec["exc"]:
+        out += rw_records(m, scn["id"], "qua.write.bundled")
+    return out
